@@ -12,7 +12,9 @@ PROPS["C05"] = dict(
                "exhaustive exploration of the cuts can settle it for the bounded inputs.",
     level_note="Trusted: TLC, the harness's chunked Read implementation behind the hook (returns exactly the caller's chunks), the domain "
                "exclusions named in the evidence. Bounds: K and alphabet in spec/mc/MC_C05_*.cfg.",
-    mc=[dict(module="mc/MC_C05.tla", cfg=dict(quick="mc/MC_C05_quick.cfg", thorough="mc/MC_C05_thorough.cfg"))],
+    mc=[dict(module="mc/MC_C05.tla", cfg=dict(quick="mc/MC_C05_quick.cfg", thorough="mc/MC_C05_thorough.cfg")),
+        # the reader for -0 / -d C (BufReader::read_until in a loop) against RefSplit: every byte string x delimiter x chunking
+        dict(module="mc/MC_C05d.tla", cfg=dict(quick="mc/MC_C05d_quick.cfg", thorough="mc/MC_C05d_thorough.cfg"))],
     record=dict(quick=600, thorough=30000),
     selftest=dict(quick=40, thorough=300),
     trace=dict(module="trace/T_C05.tla", cfg="trace/T_C05.cfg"),
@@ -20,10 +22,10 @@ PROPS["C05"] = dict(
          "implementation-shaped reader = reference tokenisation; every such string is also a vector replayed through the "
          "cfg(findutils_verif) hook under every chunking (with and without EINTR before each chunk). "
          "Trace: seeded random inputs (quotes, escapes, multi-byte UTF-8, -0/-d delimiters, 4096-byte buffer edge) with random chunkings, "
-         "validated by TLC against RefRead.",
+         "validated by TLC against RefRead. MC_C05d: the -0/-d reader (read_until loop) for every byte string up to K over {a,NUL,newline,',\\,blank} "
+         "x delimiters {NUL, newline, a} x every chunking = RefSplit; vectors replayed through the hook with their delimiter.",
     exhaustive_note="bounded-exhaustive over the MC alphabet and length",
-    assumptions=["default-mode domain excludes NUL, VT, FF, CR, a word consisting only of an empty quote pair, and a dangling backslash at end of input "
-                 "(the property leaves them open)",
+    assumptions=["default-mode domain excludes NUL, VT, FF, CR and a dangling backslash at end of input (the property leaves them open)",
                  "the hook runs the same private reader types xargs uses; the pipe between a real producer and the xargs binary is covered by C07"],
 )
 
